@@ -331,8 +331,48 @@ def o_shard(shard, nshards, payload):
     return st
 
 
+def werror_histories(tier):
+    """sequences of REAL interpreter processes defining same-named classes one after the other in one directory, some of them started
+    with -W error (every warning is an exception - the way test suites are commonly run): a later definition that meets the cache of
+    an earlier one must succeed there too"""
+    import itertools as it
+    procs = [(d, w) for d in ('A', 'A2') for w in (False, True)]
+    out = []
+    for n in ((2, 3) if tier == 'quick' else (2, 3, 4)):
+        for seq in it.product(procs, repeat=n):
+            if any(w for _, w in seq[1:]):          # a process that meets an existing cache under -W error
+                out.append(seq)
+    return out
+
+
+def werror_shard(shard, nshards, payload):
+    st = Stats()
+    for i, seq in enumerate(werror_histories(payload['tier'])):
+        if i % nshards != shard:
+            continue
+        scratch = common.new_scratch_dir('c16w')
+        cache.write_source(scratch)
+        try:
+            for j, (decl, werr) in enumerate(seq):
+                out = cache.real_define(scratch, CLOCK0, decl, 'def', True, warn_error=werr)
+                st.inc('real_definitions')
+                why = cache.judge(decl, out)
+                if why:
+                    hist = ' ; '.join('python%s: define(%s)' % (' -W error' if w else '', d) for d, w in seq[:j + 1])
+                    st.violate('later definition under -W error: %s' % ('definition fails' if 'failed' in why else 'runs wrong or truncated code'),
+                               'history of real interpreter processes: %s => %s' % (hist, why), {'kind': 'werror', 'seq': [[d, w] for d, w in seq[:j + 1]]})
+                    break
+            st.inc('werror_histories')
+            st.add('states', ('werror', cache.snap_key(cache.snapshot_dir(scratch))))
+            st.add('outcomes', ('werror', len(seq)))
+        finally:
+            shutil.rmtree(scratch, ignore_errors=True)
+    return st
+
+
 def run(tier):
     parts = common.run_sharded(both_shard, {'tier': tier})
+    sw = common.merge_all(common.run_sharded(werror_shard, {'tier': tier}))
     from mc import ea_o
     so = ea_o.run_shard('mc.props.c16', 'o_shard', {'tier': 'quick', 'o': True})
     a, b = Stats(), Stats()
@@ -348,6 +388,7 @@ def run(tier):
     st.merge(a)
     st.merge(b)
     st.merge(so)              # the reduced exploration under python -O (its signatures carry the prefix 'python -O:')
+    st.merge(sw)              # later definitions in real processes started with -W error
     st.notes.extend(so.notes)
     capped = b.n.get('capped', 0)
     if not st.samples:
@@ -361,13 +402,14 @@ def run(tier):
         'interleaving_states': b.count('states'), 'schedules_executed': b.n.get('schedules', 0), 'pairs_explored': b.n.get('pairs', 0),
         'pairs_where_the_schedule_cap_was_hit': capped, 'real_process_replays': st.n.get('real_replays', 0),
         'schedules_replayed_with_two_real_processes': st.n.get('real_schedule_replays', 0),
+        'real_process_histories_with_warnings_as_errors': st.n.get('werror_histories', 0),
         'rule': 'crash: a definition is killed before every interposed file-system step and after every character of every write (%s) from %d initial '
                 'cache states; every one of those steps is also made to FAIL (no space left on device; thorough: permission denied too) instead of the process dying there; '
                 'from every distinct resulting directory a fresh process defines the same / the same-length sibling / another declaration; '
                 'interleavings: depth-first search over all schedules of the file-system steps of two defining processes with <=1 clock tick, pruned by a '
                 'visited set over (directory contents+mtimes, clock, per process: program counter + digest of all its observations); transitions = '
-                'interposed file-system steps executed; a reduced exploration (one declaration from every initial state, three pairs) once more inside interpreters started with -O' % ('all combinations' if tier == 'thorough' else 'per character for two combinations, first/middle/last for the others',
-                                                         len(init_states(tier))),
+                'interposed file-system steps executed; a reduced exploration (one declaration from every initial state, three pairs) once more inside interpreters started with -O; all sequences of 2..%d real interpreter processes defining A / its sibling where a later one runs with -W error' % ('all combinations' if tier == 'thorough' else 'per character for two combinations, first/middle/last for the others',
+                                                         len(init_states(tier)), 3 if tier == 'quick' else 4),
         'exhaustive': capped == 0, 'bounds': {'processes': 2, 'clock_ticks': 1}, 'distinct_outcomes': st.count('outcomes'), 'samples': st.samples,
     }
     errs = [n for n in st.notes if n.startswith('HARNESS')]
@@ -381,6 +423,12 @@ def replay(case):
     scratch = common.new_scratch_dir('c16r')
     cache.write_source(scratch)
     try:
+        if case['kind'] == 'werror':
+            for decl, werr in case['seq']:
+                why = cache.judge(decl, cache.real_define(scratch, CLOCK0, decl, 'def', True, warn_error=werr))
+                if why:
+                    return [{'sig': 'later definition under -W error', 'what': why}]
+            return []
         if case['kind'] == 'crash':
             init = prepare(scratch, case['d1'], case['opt'], case['init'])
             cache.restore_dir(scratch, init)
